@@ -32,9 +32,15 @@ func (pass *Omit) processSchema(schema *ast.Schema) *ast.Schema {
 	})
 
 	// the entry point can not designate an omitted object
-	if schema.EntryPoint != "" && !schema.HasObject(schema.EntryPoint) {
-		schema.EntryPoint = ""
-		schema.EntryPointType = ast.Type{}
+	if schema.EntryPoint != "" {
+		entryPointRef := ast.RefType{ReferredPkg: schema.Package, ReferredType: schema.EntryPoint}
+		for _, objectRef := range pass.Objects {
+			if objectRef.MatchesRef(entryPointRef) {
+				schema.EntryPoint = ""
+				schema.EntryPointType = ast.Type{}
+				break
+			}
+		}
 	}
 
 	return schema
